@@ -15,12 +15,12 @@ def operand_cases(tname):
     cls = semantics.ORACLE[tname][0]
     if cls == semantics.ANY:
         # constants ignore their operands but may carry them (circuit search emits two)
-        return [(), ('x', 'y'), ('x', 'x'), ('in0', 'x')]
+        return [(), ('x', 'y'), ('x', 'x'), ('in0', 'x'), ('h', 'h')]
     if cls[0] == 'fixed' and cls[1] == 1:
-        return [('x',)]
+        return [('x',), ('h',)]
     if cls[0] == 'fixed':
-        return [('x', 'y'), ('x', 'x'), ('y', 'in0')]
-    return [('x', 'y'), ('x', 'x'), ('x', 'y', 'in0')]
+        return [('x', 'y'), ('x', 'x'), ('y', 'in0'), ('h', 'x'), ('x', 'h')]
+    return [('x', 'y'), ('x', 'x'), ('x', 'y', 'in0'), ('h', 'x')]
 
 
 def check_rewrites(ck: Checker, den: Denotations, prefix='C14'):
@@ -40,10 +40,18 @@ def check_rewrites(ck: Checker, den: Denotations, prefix='C14'):
             probs = []
             for vals in semantics.bools(3):
                 a = dict(zip(('in0', 'x', 'y'), vals))
-                want = semantics.value(tname, [a[o] for o in operands])
+                val = dict(a, h=a['x'] and a['y'])
+                want = semantics.value(tname, [val[o] for o in operands])
                 got = c.evaluate('g', a)
                 if got != want:
                     probs.append(f'{a}: rewritten gate gives {int(got)}, {tname} gives {int(want)}')
+            gone = sorted(l for l in before if l not in c._gates)
+            if gone:
+                probs.append(f'pre-existing gates {gone} were removed by the rewrite')
+            elif c._outputs != ['user', 'h']:
+                probs.append(f'circuit outputs changed to {c._outputs}')
+            elif any((c._gates[l].gate_type.var, c._gates[l].operands) != sig for l, sig in (('h', ('AND', ('x', 'y'))), ('user', ('IFF', ('g',))))):
+                probs.append('another gate of the circuit was rewritten')
             new_types = sorted({g.gate_type.var for l, g in c._gates.items() if l == 'g' or l not in before})
             outside = [t for t in new_types if t not in semantics.BENCH_BASIS]
             if outside:
